@@ -402,8 +402,8 @@ def make_machine(ctx: Any, ctx_state: Dict[str, Any]) -> Any:
 
 def parts(tier: str) -> List[Part]:
     if tier == "thorough":
-        return [Part("on_ready", "given", shards=8, examples=6000, strategy=on_ready_cases, soft_deadline_s=1200),
-                Part("label_source", "machine", shards=8, examples=3000, machine=make_machine, steps=25, soft_deadline_s=1500)]
+        return [Part("on_ready", "given", shards=8, examples=12000, strategy=on_ready_cases, soft_deadline_s=3000),
+                Part("label_source", "machine", shards=8, examples=6000, machine=make_machine, steps=25, soft_deadline_s=3000)]
     return [Part("on_ready", "given", shards=4, examples=600, strategy=on_ready_cases, soft_deadline_s=100),
             Part("label_source", "machine", shards=4, examples=250, machine=make_machine, steps=15, soft_deadline_s=120)]
 
